@@ -261,7 +261,7 @@ package heap
 
 //@ func (*heap.Heap).getIndex
 //@   property C03 C01
-//@   lock h.mu : none
+//@   lock h.mu : R
 //@   requires h.mu != nil
 //@   ensures result1 ==> 0 <= result0 && result0 < len(slice) && slice[result0] == val
 //@   ensures !result1 ==> result0 == 0 - 1 && forall k int :: 0 <= k && k < len(slice) ==> slice[k] != val
